@@ -167,3 +167,14 @@ func LabelOf(h bitcoin.Hash32) string {
 	})
 	return r
 }
+
+// LabelHeight returns the height of the header a label names: "G" is 0, "B<n>" is n, and every
+// "/slot" component adds one.
+func LabelHeight(label string, base int) int {
+	parts := strings.Split(label, "/")
+	h := 0
+	if strings.HasPrefix(parts[0], "B") {
+		fmt.Sscanf(parts[0], "B%d", &h)
+	}
+	return h + len(parts) - 1
+}
